@@ -122,6 +122,10 @@ def _consteval_sample(run, label, paths, kind, cap):
     for pth in paths:
         lines += open(pth).readlines()
     random.Random(run.seed).shuffle(lines)
+    # long inputs (offsets / lengths / repetition counts beyond 64, 128, 256) first, up to a third of the budget
+    long_ones = [l for l in lines if len(l) > 700][:max(1, cap // 3)]
+    chosen = set(map(id, long_ones))
+    lines = long_ones + [l for l in lines if id(l) not in chosen]
     ps = progs.ProgSet(run, label)
     n = 0
     for l in lines:
